@@ -193,3 +193,16 @@ package sweep
 //@   site call updateRecord: assert retn(createAndCheckTx, 1) == nil && arg(1) == r && arg(2) == retn(createAndCheckTx, 0)
 //@   site call broadcast: assert arg(1) == ret(updateRecord)
 //@   site call handleReplacementTxError: assert retn(createAndCheckTx, 1) != nil
+//@
+//@ func (t *TxPublisher) createSweepTx
+//@   props C18
+//@   loop * havoc
+//@   loop 0 step len(idxs) == prev(len(idxs)) + ite(ret(RequiredTxOut, 0) == nil, 0, 1)
+//@   loop 1 step len(idxs) == prev(len(idxs)) + ite(ret(RequiredTxOut, 2) != nil, 0, 1)
+//@   site call prepareSweepTx: assert arg(0) == inputs && arg(2) == feeRate
+//@   site call AddTxIn nth 0: assert arg(1).PreviousOutPoint.Index == ret(OutPoint, 0).Index && arg(1).Sequence == ret(BlocksToMaturity, 0) &&
+//@        ret(RequiredTxOut, 0) != nil
+//@   site call AddTxIn nth 1: assert arg(1).PreviousOutPoint.Index == ret(OutPoint, 2).Index && arg(1).Sequence == ret(BlocksToMaturity, 1) &&
+//@        ret(RequiredTxOut, 2) == nil
+//@   site call AddTxOut nth 0: assert arg(1) == ret(RequiredTxOut, 1)
+//@   site return nil: assert retn(prepareSweepTx, 3) == nil && result0.fee == retn(prepareSweepTx, 0) && result0.tx == sweepTx
